@@ -1,1 +1,408 @@
-(* C03 proofs: in progress *)
+(* C03 proofs: the bytecode VM against the reference evaluator. *)
+From Coq Require Import List String Ascii Bool NArith ZArith Lia Arith.
+From Yae Require Import Base.Sexp Model.Ty Gen.Generated Model.Unify Model.Num Model.Lexer Model.Literal Model.Cst
+  Model.Check Model.CheckSpec Model.Val Model.Render Model.ValSpec Model.Builtins Model.Eval Model.EvalSpec Model.VM.
+Import ListNotations.
+Local Open Scope string_scope.
+Local Open Scope list_scope.
+
+(* ------------------------------------------------------------------ *)
+(* finite checks over the regenerated tables *)
+
+Lemma intrinsics_agree :
+  forallb (fun row => let '(name, ps, opn) := row in
+             match find (fun o => String.eqb (op_name o) opn) all_ops, classify name ps with
+             | Some o, Some b => match intrinsic_sem o with
+                                 | Some (b', k) => bfun_beq b b' && Nat.eqb k (List.length ps)
+                                 | None => false end
+             | _, _ => false
+             end) intrinsics_cbv = true /\
+  forallb (fun row => match classify (fst row) (snd row) with
+                      | Some BIf | Some BAnd | Some BOr | Some BNot => true
+                      | _ => false end) intrinsics_cbn = true.
+Proof. split; vm_compute; reflexivity. Qed.
+
+Lemma decode_op_byte : forall o, decode_op (op_byte o) = Some o.
+Proof. destruct o; vm_compute; reflexivity. Qed.
+
+(* ------------------------------------------------------------------ *)
+(* the monad *)
+
+Lemma mbind_ret_l : forall X Y (x : X) (f : X -> M Y), mbind (ret x) f = f x.
+Proof. intros. unfold mbind, ret. destruct (f x). reflexivity. Qed.
+
+Lemma mbind_ret_r : forall X (m : M X), mbind m (fun x => ret x) = m.
+Proof. intros X [t [x|k|k]]; cbn; rewrite ?app_nil_r; reflexivity. Qed.
+
+Definition tpre {X} (t : list event) (m : M X) : M X := (t ++ fst m, snd m).
+
+Lemma tpre_nil : forall X (m : M X), tpre [] m = m.
+Proof. intros X [t o]. reflexivity. Qed.
+
+Lemma tpre_tpre : forall X t1 t2 (m : M X), tpre t1 (tpre t2 m) = tpre (t1 ++ t2) m.
+Proof. intros X t1 t2 [t o]. unfold tpre. cbn. rewrite app_assoc. reflexivity. Qed.
+
+Lemma mbind_val : forall X Y t (x : X) (f : X -> M Y), mbind (t, OVal x) f = tpre t (f x).
+Proof. intros. unfold mbind, tpre. destruct (f x). reflexivity. Qed.
+
+Lemma mbind_fail : forall X Y t k (f : X -> M Y), mbind (t, OFail k) f = (t, OFail k).
+Proof. reflexivity. Qed.
+
+Lemma mbind_fault : forall X Y t k (f : X -> M Y), mbind (t, OFault k) f = (t, OFault k).
+Proof. reflexivity. Qed.
+
+(* ------------------------------------------------------------------ *)
+(* the dispatch loop, named: [vop] is one instruction, [vloop] the loop of vm_run *)
+Section Loop.
+  Variable ops : numops.
+  Variable orc : oracles.
+  Variable rho : venv.
+  Variable pool : list const.
+  Variable run : list N -> M val.       (* the invocation of a thunk body *)
+  Variable code : list N.
+
+  Definition vop (continue : list N -> list sval -> M val) (o : opcode) (r : list N) (stack : list sval) : M val :=
+    match o with
+    | OP_NOP => continue r stack
+    | OP_ADD_NUM => continue r stack
+    | OP_RETURN => let^ (v, _) := pop_val stack in ret v
+    | OP_CONST =>
+        let^ (c, r1) := read_const pool r in
+        match c with
+        | CVal v => continue r1 (SV v :: stack)
+        | CThunk body rt => continue r1 (STh body rt :: stack)
+        | _ => fault XTypeConf
+        end
+    | OP_LOAD =>
+        let^ (c, r1) := read_const pool r in
+        match c with
+        | CName nm => match assoc nm rho with Some v => continue r1 (SV v :: stack) | None => fault XNil end
+        | _ => fault XTypeConf
+        end
+    | OP_JUMP => let^ (t, _) := read16 r in continue (skipn (N.to_nat t) code) stack
+    | OP_IF_TRUE =>
+        let^ (t, r1) := read16 r in
+        let^ (v, s1) := pop_val stack in
+        let^ bv := as_bool v in
+        if bv then continue r1 s1 else continue (skipn (N.to_nat t) code) s1
+    | OP_NEW_LIST =>
+        let^ (c, r1) := read_const pool r in let^ (sz, r2) := read16 r1 in
+        match c with
+        | CType (TList e) =>
+            let^ (xs, s1) := pop_n (N.to_nat sz) stack [] in let^ vs := vals_of xs in
+            continue r2 (SV (VList (TList e) vs) :: s1)
+        | _ => fault XTypeConf
+        end
+    | OP_NEW_MAP =>
+        let^ (c, r1) := read_const pool r in let^ (sz, r2) := read16 r1 in
+        match c with
+        | CType (TMap kt vt) =>
+            let^ (xs, s1) := pop_n (2 * N.to_nat sz) stack [] in let^ vs := vals_of xs in
+            let^ entries :=
+              (fix go (vs : list val) (acc : list (list N * val)) : M (list (list N * val)) :=
+                 match vs with
+                 | k :: v :: rr => let^ kk := key_of ops k in go rr (kput kk v acc)
+                 | _ => ret acc
+                 end) vs [] in
+            continue r2 (SV (VMap (TMap kt vt) entries) :: s1)
+        | _ => fault XTypeConf
+        end
+    | OP_NEW_OBJ =>
+        let^ (c, r1) := read_const pool r in
+        match c with
+        | CType (TObj fs) =>
+            let^ (xs, s1) := pop_n (len fs) stack [] in let^ vs := vals_of xs in
+            continue r1 (SV (VObj (TObj fs) vs) :: s1)
+        | _ => fault XTypeConf
+        end
+    | OP_LIST_LOAD =>
+        let^ (iv, s1) := pop_val stack in let^ nb := as_num iv in
+        let^ (lv, s2) := pop_val s1 in let^ vs := as_list lv in
+        let idx := to_i64 ops nb in
+        if Z.ltb idx 0 || Z.leb (Z.of_nat (len vs)) idx then fail FIndex
+        else match nth_error vs (Z.to_nat idx) with Some e => continue r (SV e :: s2) | None => fail FIndex end
+    | OP_MAP_LOAD =>
+        let^ (kv, s1) := pop_val stack in
+        let^ (mv, s2) := pop_val s1 in let^ kvs := as_map mv in
+        let^ kk := key_of ops kv in
+        match kget kk kvs with Some e => continue r (SV e :: s2) | None => fail FKey end
+    | OP_OBJ_LOAD =>
+        let^ (idx, r1) := read16 r in let^ (c, r2) := read_const pool r1 in
+        let^ (ov, s1) := pop_val stack in
+        match c, ov with
+        | CName nm, VObj t vs =>
+            match obj_load t vs (N.to_nat idx) nm with Some e => continue r2 (SV e :: s1) | None => fault XNil end
+        | _, _ => fault XTypeConf
+        end
+    | OP_CALL_BY_VALUE =>
+        let^ (c, r1) := read_const pool r in let^ (argc, r2) := read8 r1 in
+        match c with
+        | CFun sg =>
+            let^ (xs, s1) := pop_n (N.to_nat argc) stack [] in let^ vs := vals_of xs in
+            let^ res := apply_strict ops orc sg vs in
+            continue r2 (SV res :: s1)
+        | _ => fault XTypeConf
+        end
+    | OP_CALL_BY_NEED =>
+        let^ (c, r1) := read_const pool r in let^ (argc, r2) := read8 r1 in
+        match c with
+        | CFun sg =>
+            let^ (xs, s1) := pop_n (N.to_nat argc) stack [] in
+            let^ ths := mmapM (fun x => match x with
+                                        | STh body _ => ret (fun (_ : unit) => run body)
+                                        | SV _ => fault XTypeConf
+                                        end) xs in
+            let^ res := (if sig_is_builtin sg then apply_lazy sg else host_lazy (s_name sg)) ths in
+            continue r2 (SV res :: s1)
+        | _ => fault XTypeConf
+        end
+    | OP_DYNAMIC_CALL =>
+        let^ (argc, r1) := read8 r in
+        let^ (xs, s1) := pop_n (N.to_nat argc) stack [] in let^ vs := vals_of xs in
+        let^ (fv, s2) := pop_val s1 in
+        match fv with
+        | VFun (TFun _ ps rt) name lz =>
+            if lz then fault XNil
+            else let^ res := apply_strict ops orc (mkSig name ps rt false) vs in continue r1 (SV res :: s2)
+        | _ => fault XTypeConf
+        end
+    | _ =>
+        match intrinsic_sem o with
+        | Some (bf, k) =>
+            let^ (xs, s1) := pop_n k stack [] in let^ vs := vals_of xs in
+            let^ res := bsem ops orc bf vs in
+            continue r (SV res :: s1)
+        | None => fault XOpcode
+        end
+    end.
+
+  Fixpoint vloop (g : nat) (rest : list N) (stack : list sval) (n : option nat) {struct g} : M val :=
+    match g with
+    | O => fault XFuel
+    | S g' =>
+      match n with
+      | Some O => fault XLimit
+      | _ =>
+        let n' := option_map pred n in
+        match rest with
+        | [] => fault XOther
+        | b :: r =>
+          match decode_op b with
+          | None => fault XOpcode
+          | Some o => vop (fun r s => vloop g' r s n') o r stack
+          end
+        end
+      end
+    end.
+End Loop.
+
+Lemma vm_run_S : forall ops orc rho pool limit f code,
+  vm_run ops orc rho pool limit (S f) code =
+  vloop ops orc rho pool (vm_run ops orc rho pool limit f) code (4 * S (len code)) code [] limit.
+Proof. intros. reflexivity. Qed.
+
+(* ------------------------------------------------------------------ *)
+(* only_refusal *)
+Lemma only_refusal : forall (ops : numops) (orc : oracles) fe a,
+  compile_main ops orc fe a = CErr \/ compile_main ops orc fe a = CFuel \/
+  exists code pool, compile_main ops orc fe a = COk (code, pool).
+Proof.
+  intros. destruct (compile_main ops orc fe a) as [[c p]| |].
+  - right. right. exists c, p. reflexivity.
+  - left. reflexivity.
+  - right. left. reflexivity.
+Qed.
+
+(* ------------------------------------------------------------------ *)
+(* relating two computations up to a class [Q] of outcomes of interest (values are always in the class) *)
+Section MRel.
+  Variable Q : outcome val -> Prop.
+  Hypothesis Qval : forall v, Q (OVal v).
+
+  Definition m_rel (m1 m2 : M val) : Prop := forall t o, m1 = (t, o) -> Q o -> m2 = (t, o).
+
+  (* same trace, same failure, related results *)
+  Definition m_sim {X Y} (R : X -> Y -> Prop) (m1 : M X) (m2 : M Y) : Prop :=
+    fst m1 = fst m2 /\
+    match snd m1, snd m2 with
+    | OVal x, OVal y => R x y
+    | OFail k1, OFail k2 => k1 = k2
+    | OFault k1, OFault k2 => k1 = k2
+    | _, _ => False
+    end.
+
+  Lemma m_rel_refl : forall m, m_rel m m.
+  Proof. intros m t o H _. exact H. Qed.
+
+  Lemma m_sim_refl : forall X (m : M X), m_sim eq m m.
+  Proof. intros X [t [x|k|k]]; split; reflexivity. Qed.
+
+  Lemma m_rel_bind_sim : forall X Y (R : X -> Y -> Prop) (m1 : M X) (m2 : M Y) k1 k2,
+    m_sim R m1 m2 -> (forall x y, R x y -> m_rel (k1 x) (k2 y)) -> m_rel (mbind m1 k1) (mbind m2 k2).
+  Proof.
+    intros X Y R [t1 o1] [t2 o2] k1 k2 [Ht Ho] Hk t o H HQ. cbn in Ht, Ho. subst t2.
+    destruct o1 as [x|k|k], o2 as [y|k'|k']; try contradiction.
+    - rewrite mbind_val in *. destruct (k1 x) as [t' o'] eqn:E. unfold tpre in H. cbn in H.
+      inversion H; subst. rewrite (Hk x y Ho _ _ E HQ). reflexivity.
+    - subst k'. exact H.
+    - subst k'. exact H.
+  Qed.
+
+  Lemma m_rel_bind_same : forall X (m : M X) k1 k2,
+    (forall x, m_rel (k1 x) (k2 x)) -> m_rel (mbind m k1) (mbind m k2).
+  Proof.
+    intros X m k1 k2 Hk. apply (m_rel_bind_sim X X eq); [apply m_sim_refl|]. intros x y E. subst y. apply Hk.
+  Qed.
+
+  Lemma m_rel_bind : forall (m1 m2 : M val) k1 k2,
+    m_rel m1 m2 -> (forall x, m_rel (k1 x) (k2 x)) -> m_rel (mbind m1 k1) (mbind m2 k2).
+  Proof.
+    intros [t1 o1] m2 k1 k2 Hm Hk t o H HQ.
+    destruct o1 as [x|k|k].
+    - rewrite (Hm _ _ eq_refl (Qval x)). rewrite mbind_val in *.
+      destruct (k1 x) as [t' o'] eqn:E. unfold tpre in H. cbn in H. inversion H; subst.
+      rewrite (Hk x _ _ E HQ). reflexivity.
+    - cbn in H. inversion H; subst. rewrite (Hm _ _ eq_refl HQ). reflexivity.
+    - cbn in H. inversion H; subst. rewrite (Hm _ _ eq_refl HQ). reflexivity.
+  Qed.
+
+  Definition th_rel (th1 th2 : unit -> M val) : Prop := m_rel (th1 tt) (th2 tt).
+
+  Lemma host_lazy_rel : forall name ths1 ths2,
+    Forall2 th_rel ths1 ths2 -> m_rel (host_lazy name ths1) (host_lazy name ths2).
+  Proof.
+    intros name ths1 ths2 HF. unfold host_lazy.
+    destruct (name =? "lazyif").
+    { apply m_rel_bind_same. intros _.
+      destruct HF as [|c c' l1 l2 Hc HF]; [apply m_rel_refl|].
+      destruct HF as [|a a' l1 l2 Ha HF]; [apply m_rel_refl|].
+      destruct HF as [|b b' l1 l2 Hb HF]; [apply m_rel_refl|].
+      destruct HF as [|d d' l1 l2 Hd HF]; [|apply m_rel_refl].
+      apply m_rel_bind; [exact Hc|]. intros cv. apply m_rel_bind_same. intros [|]; assumption. }
+    destruct (name =? "both").
+    { apply m_rel_bind_same. intros _.
+      destruct HF as [|a a' l1 l2 Ha HF]; [apply m_rel_refl|].
+      destruct HF as [|b b' l1 l2 Hb HF]; [apply m_rel_refl|].
+      destruct HF as [|d d' l1 l2 Hd HF]; [|apply m_rel_refl].
+      apply m_rel_bind; [exact Ha|]. intros av. apply m_rel_bind_same. intros [|]; [|apply m_rel_refl].
+      apply m_rel_bind; [exact Hb|]. intros bv. apply m_rel_refl. }
+    apply m_rel_refl.
+  Qed.
+
+  Lemma apply_lazy_rel : forall sg ths1 ths2,
+    Forall2 th_rel ths1 ths2 -> m_rel (apply_lazy sg ths1) (apply_lazy sg ths2).
+  Proof.
+    intros sg ths1 ths2 HF. unfold apply_lazy.
+    destruct (classify (s_name sg) (s_params sg)) as [b|]; [|apply host_lazy_rel; exact HF].
+    destruct b; try (apply host_lazy_rel; exact HF).
+    - destruct HF as [|c c' l1 l2 Hc HF]; [apply m_rel_refl|].
+      destruct HF as [|a a' l1 l2 Ha HF]; [apply m_rel_refl|].
+      destruct HF as [|b b' l1 l2 Hb HF]; [apply m_rel_refl|].
+      destruct HF as [|d d' l1 l2 Hd HF]; [|apply m_rel_refl].
+      apply m_rel_bind; [exact Hc|]. intros cv. apply m_rel_bind_same. intros [|]; assumption.
+    - destruct HF as [|a a' l1 l2 Ha HF]; [apply m_rel_refl|].
+      destruct HF as [|b b' l1 l2 Hb HF]; [apply m_rel_refl|].
+      destruct HF as [|d d' l1 l2 Hd HF]; [|apply m_rel_refl].
+      apply m_rel_bind; [exact Ha|]. intros av. apply m_rel_bind_same. intros [|]; [|apply m_rel_refl].
+      apply m_rel_bind; [exact Hb|]. intros bv. apply m_rel_refl.
+    - destruct HF as [|a a' l1 l2 Ha HF]; [apply m_rel_refl|].
+      destruct HF as [|b b' l1 l2 Hb HF]; [apply m_rel_refl|].
+      destruct HF as [|d d' l1 l2 Hd HF]; [|apply m_rel_refl].
+      apply m_rel_bind; [exact Ha|]. intros av. apply m_rel_bind_same. intros [|]; [apply m_rel_refl|].
+      apply m_rel_bind; [exact Hb|]. intros bv. apply m_rel_refl.
+  Qed.
+
+  Lemma lazy_rel : forall sg ths1 ths2,
+    Forall2 th_rel ths1 ths2 ->
+    m_rel ((if sig_is_builtin sg then apply_lazy sg else host_lazy (s_name sg)) ths1)
+          ((if sig_is_builtin sg then apply_lazy sg else host_lazy (s_name sg)) ths2).
+  Proof. intros. destruct (sig_is_builtin sg); [apply apply_lazy_rel|apply host_lazy_rel]; assumption. Qed.
+End MRel.
+
+(* ------------------------------------------------------------------ *)
+(* callthread_agrees *)
+Section CallThread.
+  Variable ops : numops.
+  Variable orc : oracles.
+  Variable rho : venv.
+  Variable pool : list const.
+
+  Definition not_limit (o : outcome val) : Prop := o <> OFault XLimit.
+  Lemma not_limit_val : forall v, not_limit (OVal v).
+  Proof. intros v H. discriminate. Qed.
+
+  Notation mrl := (m_rel not_limit).
+
+  Definition thunk_of (run : list N -> M val) (x : sval) : M (unit -> M val) :=
+    match x with STh body _ => ret (fun (_ : unit) => run body) | SV _ => fault XTypeConf end.
+
+  Lemma thunks_sim : forall (Q : outcome val -> Prop) run1 run2 xs,
+    (forall body, m_rel Q (run1 body) (run2 body)) ->
+    m_sim (Forall2 (th_rel Q)) (mmapM (thunk_of run1) xs) (mmapM (thunk_of run2) xs).
+  Proof.
+    intros Q run1 run2 xs Hr. induction xs as [|x xs IH].
+    - split; cbn; [reflexivity|constructor].
+    - cbn [mmapM]. fold (mmapM (thunk_of run1)). fold (mmapM (thunk_of run2)).
+      destruct x as [v|body rt]; cbn [thunk_of].
+      + split; reflexivity.
+      + rewrite !mbind_ret_l.
+        destruct IH as [Ht Ho].
+        destruct (mmapM (thunk_of run1) xs) as [t1 o1], (mmapM (thunk_of run2) xs) as [t2 o2].
+        cbn in Ht, Ho. subst t2.
+        destruct o1 as [l1|k1|k1], o2 as [l2|k2|k2]; try contradiction; cbn.
+        * split; [reflexivity|]. constructor; [|exact Ho]. unfold th_rel. apply Hr.
+        * split; [reflexivity|exact Ho].
+        * split; [reflexivity|exact Ho].
+  Qed.
+
+  Lemma vop_rel : forall (Q : outcome val -> Prop) (Qval : forall v, Q (OVal v)) run1 run2 code c1 c2 o r s,
+    (forall body, m_rel Q (run1 body) (run2 body)) ->
+    (forall r s, m_rel Q (c1 r s) (c2 r s)) ->
+    m_rel Q (vop ops orc rho pool run1 code c1 o r s) (vop ops orc rho pool run2 code c2 o r s).
+  Proof.
+    intros Q Qval run1 run2 code c1 c2 o r s Hr Hc.
+    assert (Hth : forall xs, m_sim (Forall2 (th_rel Q)) (mmapM (thunk_of run1) xs) (mmapM (thunk_of run2) xs))
+      by (intros; apply thunks_sim; exact Hr).
+    destruct o; cbn [vop intrinsic_sem];
+    repeat first
+      [ apply Hc
+      | apply m_rel_refl
+      | apply (m_rel_bind_same Q); intros ?
+      | match goal with
+        | |- m_rel _ (mbind (mmapM _ ?xs) _) _ =>
+            apply (m_rel_bind_sim Q _ _ _ _ _ _ _ (Hth xs)); intros ? ? ?
+        | |- m_rel _ (mbind ((if ?b then _ else _) _) _) _ =>
+            apply (m_rel_bind Q Qval); [apply lazy_rel; assumption|intros ?]
+        | |- m_rel _ (let '(_, _) := ?p in _) _ => destruct p
+        | |- m_rel _ (match ?x with _ => _ end) _ => destruct x
+        | |- m_rel _ (if ?x then _ else _) _ => destruct x
+        end ].
+  Qed.
+
+  Lemma vloop_rel : forall run1 run2 code,
+    (forall body, mrl (run1 body) (run2 body)) ->
+    forall g rest s k,
+      mrl (vloop ops orc rho pool run1 code g rest s (Some k)) (vloop ops orc rho pool run2 code g rest s None).
+  Proof.
+    intros run1 run2 code Hr. induction g as [|g IH]; intros rest s k.
+    - apply m_rel_refl.
+    - cbn [vloop]. destruct k as [|k].
+      + intros t o H HQ. inversion H; subst. exfalso. apply HQ. reflexivity.
+      + cbn [option_map pred]. destruct rest as [|b r]; [apply m_rel_refl|].
+        destruct (decode_op b) as [o|]; [|apply m_rel_refl].
+        apply vop_rel; [exact not_limit_val|exact Hr|]. intros r' s'. apply IH.
+  Qed.
+
+  Lemma vm_run_rel : forall lim f code,
+    mrl (vm_run ops orc rho pool (Some lim) f code) (vm_run ops orc rho pool None f code).
+  Proof.
+    intros lim. induction f as [|f IH]; intros code.
+    - apply m_rel_refl.
+    - rewrite !vm_run_S. apply vloop_rel. exact IH.
+  Qed.
+End CallThread.
+
+Lemma callthread_agrees : forall (ops : numops) (orc : oracles) rho pool lim g code t o,
+  vm_run ops orc rho pool (Some lim) g code = (t, o) -> o <> OFault XLimit ->
+  vm_run ops orc rho pool None g code = (t, o).
+Proof. intros ops orc rho pool lim g code t o H Hn. exact (vm_run_rel ops orc rho pool lim g code t o H Hn). Qed.
